@@ -1,4 +1,5 @@
 pub mod engine;
+pub mod fuzzapi;
 pub mod gen;
 pub mod props;
 pub mod refimpl;
